@@ -100,7 +100,12 @@ func (v *Vue) evalSlot(ctx VueContext, node *html.Node, slotScope *SlotScope) ([
 				defer ctx.stack.Pop()
 
 				// If there's a scoped variable name, use it; otherwise use the props directly
-				if scopedVarName != "" {
+				if names, ok := destructuredNames(scopedVarName); ok {
+					// v-slot="{ item, index }": bind each named prop directly
+					for _, name := range names {
+						ctx.stack.Set(name, slotProps[name])
+					}
+				} else if scopedVarName != "" {
 					ctx.stack.Set(scopedVarName, slotProps)
 				} else {
 					// Set the slot props directly in the context
@@ -157,4 +162,20 @@ func (v *Vue) evalSlot(ctx VueContext, node *html.Node, slotScope *SlotScope) ([
 	}
 
 	return []*html.Node{}, nil
+}
+
+// destructuredNames parses a destructuring slot-props pattern such as "{ item, index }" into
+// the listed names. It reports false when the value is not written in that form.
+func destructuredNames(pattern string) ([]string, bool) {
+	pattern = strings.TrimSpace(pattern)
+	if !strings.HasPrefix(pattern, "{") || !strings.HasSuffix(pattern, "}") {
+		return nil, false
+	}
+	var names []string
+	for _, part := range strings.Split(pattern[1:len(pattern)-1], ",") {
+		if name := strings.TrimSpace(part); name != "" {
+			names = append(names, name)
+		}
+	}
+	return names, true
 }
